@@ -226,8 +226,19 @@ def generate(rng, tier):
                 for kk in range(1, n_runs):
                     if rng.random() < 0.7:
                         plan.append(dict(f, k=kk))
-    scn = {'profile': ID, 'world': world, 'ops': ops, 'plan': plan, 'render': True,
-           'env': {'listing_seed': rng.randint(0, 99)}, 'kind': kind}
+    env = {'listing_seed': rng.randint(0, 99)}
+    if rng.random() < 0.12:
+        # the host program limits how much of a traceback the standard library formats
+        env['tracebacklimit'] = rng.choice([0, 1, 2])
+    if rng.random() < 0.3:
+        # code under test that also emits a warning (before it fails, or in another doctest)
+        taken = set((f.get('dt'), f.get('k'), f.get('pid')) for f in plan)
+        for d in ids:
+            if rng.random() < 0.5:
+                cand = [p for p in common.points_of(world, d) if (d, 0, p['pid']) not in taken]
+                if cand:
+                    plan.append({'dt': d, 'k': 0, 'pid': cand[0]['pid'], 'kind': 'warn'})
+    scn = {'profile': ID, 'world': world, 'ops': ops, 'plan': plan, 'render': True, 'env': env, 'kind': kind}
     return scn
 
 
